@@ -5,6 +5,7 @@ package verifsim
 import (
 	"bytes"
 	"context"
+	"encoding/base64"
 	"encoding/hex"
 	"encoding/json"
 	"fmt"
@@ -13,6 +14,7 @@ import (
 	"os"
 	"os/exec"
 	"path/filepath"
+	"strconv"
 	"strings"
 	"syscall"
 	"testing"
@@ -64,6 +66,70 @@ type hostileLog struct {
 	treeID   string
 	variant  uint64 // which malformed body the serverless stub serves for tile requests
 	inactive bool   // rekor: the configured tree is listed among the inactive shards
+	honest   bool
+}
+
+// serverlessTile renders the tile tile/<level, 2 hex digits>/<index, 4+2+2+2 hex digits>[.<partial width, 2 hex digits>] of
+// the serverless-log layout for a tree of the given size: a tile spans 8 tree levels over up to 256 hashes of tree level
+// 8*level; the text is "32\n<width>\n" followed by one base64 line per slot of the in-order linearisation of the nodes
+// above those hashes (slot of node (l, i) = 2^(l+1)*i + 2^l - 1); slots of subtrees that are not complete stay empty.
+func serverlessTilePathOK(p string) bool {
+	f := strings.Split(p, "/")
+	if len(f) != 6 || f[0] != "tile" || len(f[1]) != 2 || len(f[2]) != 4 || len(f[3]) != 2 || len(f[4]) != 2 {
+		return false
+	}
+	last, part, dotted := strings.Cut(f[5], ".")
+	isHex := func(x string) bool {
+		for _, c := range x {
+			if !strings.ContainsRune("0123456789abcdef", c) {
+				return false
+			}
+		}
+		return true
+	}
+	return len(last) == 2 && (!dotted || len(part) == 2) && isHex(f[1]+f[2]+f[3]+f[4]+last+part)
+}
+
+// strict: the reader must ask for the full tile when the tree has one and for the exact partial width otherwise (a tree of
+// fixed size); otherwise any width the tree can fill is served (a growing tree: the reader works from an older checkpoint).
+func serverlessTile(tree *RefTree, size uint64, p string, strict bool) ([]byte, bool) {
+	f := strings.Split(p, "/")
+	if !serverlessTilePathOK(p) {
+		return nil, false
+	}
+	last, part, _ := strings.Cut(f[5], ".")
+	level, err1 := strconv.ParseUint(f[1], 16, 8)
+	index, err2 := strconv.ParseUint(f[2]+f[3]+f[4]+last, 16, 64)
+	n := uint64(256)
+	var err3 error
+	if part != "" {
+		n, err3 = strconv.ParseUint(part, 16, 16)
+	}
+	if err1 != nil || err2 != nil || err3 != nil || level > 7 || n == 0 || n > 256 || len(last) != 2 {
+		return nil, false
+	}
+	span := uint64(1) << (8 * level) // leaves under one bottom hash of this tile
+	if index > (1<<62)/span/256 || (index*256+n)*span > size {
+		return nil, false
+	}
+	if want := (size / span) % 256; strict && ((part == "") != ((size/span)/256 > index) || (part != "" && n != want)) {
+		return nil, false // the reader asks for the full tile when there is one, and for the exact partial width otherwise
+	}
+	slots := make([][]byte, 2*n-1)
+	for l := uint(0); l < 8; l++ {
+		for i := uint64(0); (i+1)<<l <= n; i++ {
+			lo := (index*256 + i<<l) * span
+			h := tree.mth(lo, lo+span<<l)
+			slots[(i<<(l+1))+(1<<l)-1] = h[:]
+		}
+	}
+	var sb strings.Builder
+	fmt.Fprintf(&sb, "32\n%d\n", n)
+	for _, x := range slots {
+		sb.WriteString(base64.StdEncoding.EncodeToString(x))
+		sb.WriteByte('\n')
+	}
+	return []byte(sb.String()), true
 }
 
 func (h *hostileLog) ServeHTTP(rw http.ResponseWriter, rq *http.Request) {
@@ -86,8 +152,17 @@ func (h *hostileLog) ServeHTTP(rw http.ResponseWriter, rq *http.Request) {
 			rw.Write(h.cp)
 			return
 		}
-		// anything else (tiles, leaves) is answered with a body of the serverless tile format's general shape, or not
-		rw.Write([]byte([]string{"not a serverless tile", "32", "32\n", "32\n5", "32\n5\n", "32\n2\nAAAA\n", "", "\n", "33\n1\n", "32\n65535\n", "32\n-1\n"}[h.variant%11]))
+		// honest cases, and three in fourteen of the hostile ones (the hostility is then in the checkpoint or the network), get
+		// real tiles of the serverless layout; the rest a body of that format's general shape, or not
+		if v := h.variant % 14; h.honest || v >= 11 {
+			if b, ok := serverlessTile(h.tree, h.size, strings.TrimPrefix(p, "/"), true); ok {
+				rw.Write(b)
+			} else {
+				http.NotFound(rw, rq)
+			}
+			return
+		}
+		rw.Write([]byte([]string{"not a serverless tile", "32", "32\n", "32\n5", "32\n5\n", "32\n2\nAAAA\n", "", "\n", "33\n1\n", "32\n65535\n", "32\n-1\n"}[h.variant%14]))
 	case "pixel":
 		if p == "/checkpoint.txt" {
 			rw.Write(h.cp)
@@ -98,10 +173,11 @@ func (h *hostileLog) ServeHTTP(rw http.ResponseWriter, rq *http.Request) {
 		if len(f) >= 4 && f[0] == "tile" && f[1] == "1" {
 			var l, n, w int
 			w = 2
-			fmt.Sscan(f[2], &l)
-			fmt.Sscan(strings.TrimSuffix(f[3], ".p"), &n)
+			// (strconv, not Sscan: Sscan reads "018" as an octal literal)
+			l, _ = strconv.Atoi(f[2])
+			n, _ = strconv.Atoi(strings.TrimSuffix(f[3], ".p"))
 			if len(f) == 5 {
-				fmt.Sscan(f[4], &w)
+				w, _ = strconv.Atoi(f[4])
 			}
 			h.stub.mu.Lock()
 			h.stub.size = h.size
@@ -235,7 +311,7 @@ func c19Run(c c19Case) string {
 	if size > 1<<40 {
 		st.size = 1 << 20
 	}
-	hl := &hostileLog{kind: c.Feeder, stub: st, cp: cp, tree: tree, size: st.size, treeID: "1234", variant: c.NetSeed / 7, inactive: c.Honest && c.NetSeed%2 == 0}
+	hl := &hostileLog{kind: c.Feeder, stub: st, cp: cp, tree: tree, size: st.size, treeID: "1234", variant: c.NetSeed / 7, inactive: c.Honest && c.NetSeed%2 == 0, honest: c.Honest}
 	sn.Hosts[host] = hl
 	u := "http://" + host
 	var ff omniwitness.Feeder
@@ -274,6 +350,12 @@ func c19Run(c c19Case) string {
 		return fmt.Sprintf("ended err=%v cycles=%d", err != nil, cycles)
 	}
 	err = ff.FeedFunc()(ctx, cl, omniwitness.VerifWitnessAdapter(realW), hc, 0)
+	if os.Getenv("VERIF_DEBUG") != "" {
+		fmt.Println("DEBUG feeder error:", err)
+		for _, q := range sn.Requests() {
+			fmt.Println("DEBUG request:", q.Method, q.Path)
+		}
+	}
 	return fmt.Sprintf("ended err=%v", err != nil)
 }
 
@@ -363,7 +445,7 @@ func init() {
 	register(&Scenario{
 		Prop:  "C19",
 		Level: "exploration",
-		Rule:  "three batches by run number. service: the C14 Main-level world with scripts in which logs go backwards, fork and answer with faults; omniwitness.Main must not return on its own (process exit). endpoint: request bodies up to and beyond 16 KiB built by structure-aware seeded mutation of valid requests of every verdict class (byte flips, truncation, line surgery, junk, oversize) plus random bytes, delivered through the chunking/failing reader to the real handler in front of the real witness, and arbitrary bytes to Proof.Unmarshal: no panic, a documented status. peers: one cycle of each real feeder (sumdb, tiles, pixel, rekor, serverless) and of the distributor, in a child process running a synctest bubble, against a stub peer whose log-signed checkpoint has size in {300, 0, 2^62, 2^62+5, 2^63-1, 2^63, 2^64-1} and a root of 32/0/5/33 bytes and whose responses suffer a seeded fault (truncation, 3 MB oversize, garbage, 5xx/404/301, stall past the timeout, empty, corruption, drop); the cycle must end with a result or an error; a CPU spin freezes a bubble, so the parent holds a wall-clock watchdog of 8 s (>= 1000x the normal cost) whose expiry is the violation. Seeded, structure-aware, not coverage-guided. non-trivial = a mutated body that got past the size line, or a peer case with a hostile size/root or a fault; distinct = distinct (status, mutation kind) and (feeder, size class, root length, fault kind, outcome)",
+		Rule:  "three batches by run number. service: the C14 Main-level world with scripts in which logs go backwards, fork and answer with faults; omniwitness.Main must not return on its own (process exit). endpoint: request bodies up to and beyond 16 KiB built by structure-aware seeded mutation of valid requests of every verdict class (byte flips, truncation, line surgery, junk, oversize) plus random bytes, delivered through the chunking/failing reader to the real handler in front of the real witness, and arbitrary bytes to Proof.Unmarshal: no panic, a documented status. peers: one cycle of each real feeder (sumdb, tiles, pixel, rekor, serverless) and of the distributor, in a child process running a synctest bubble, against a stub peer that serves the reference tree in that feeder's own layout (for serverless also eleven malformed tile bodies) and whose log-signed checkpoint has size in {300, 0, 2^62, 2^62+5, 2^63-1, 2^63, 2^64-1} and a root of 32/0/5/33 bytes and whose responses suffer a seeded fault (truncation, 3 MB oversize, garbage, 5xx/404/301, stall past the timeout, empty, corruption, drop); the cycle must end with a result or an error; a CPU spin freezes a bubble, so the parent holds a wall-clock watchdog of 8 s (>= 1000x the normal cost) whose expiry is the violation. Seeded, structure-aware, not coverage-guided. non-trivial = a mutated body that got past the size line, or a peer case with a hostile size/root or a fault; distinct = distinct (status, mutation kind) and (feeder, size class, root length, fault kind, outcome)",
 		Gen: func(r *Rng, tier string, n uint64) *Plan {
 			p := &Plan{Scenario: "hostile"}
 			p.Cfg = Config{Store: "mem", Dense: 64, WitKeys: []string{"ed:0", "cosig:0"}, Logs: []LogCfg{{Origin: "sim.example/h0", Key: 0, Forks: []ForkCfg{{Parent: 0, At: 1}}}}, Extra: map[string]int64{}, Notes: map[string]string{}}
